@@ -967,6 +967,23 @@ def run_cases(ctx, exe, cases, label, checker, features, mode, corr_name):
 NONTRIVIAL = {"restart-in-flight", "shared-wd", "close-in-flight", "stop-in-callback"}
 
 
+def gencmp_watchers(ctx):
+    """Tie A broken: does the comparator generated from compare_watchers (linux.c) still order the watcher tree?
+    Evaluates Generated.compare_watchers on wd pairs from [-1..3] (checks/gencmp.py)."""
+    import gencmp
+    r = gencmp.grid_check([(w,) for w in range(-1, 4)],
+                          lambda a, b: f"(compare_watchers ({a[0]}) ({b[0]})).map (·.ret)")
+    ctx.count()
+    if r:
+        law, keys, vals = r
+        ctx.violation("compare_watchers-order-law",
+                      f"C17: compare_watchers as generated from src/unix/linux.c is not a strict total order on watch descriptors "
+                      f"({law}) for wd {[k[0] for k in keys]}: {vals}; RB_INSERT/RB_FIND of the watcher tree then lose or "
+                      f"duplicate watcher lists (events for a registered wd are dropped)",
+                      {"mode": "gencmp", "wds": [k[0] for k in keys]})
+    return bool(r)
+
+
 def run(ctx):
     ctx.trusted += ["harness/c17_sim.c: link-time --wrap observation of uv_fs_stat/uv_timer_init/uv_timer_start/uv_close, "
                     "held uv__statx on the single pool thread, virtual clock_gettime, scripted inotify_add_watch/rm_watch/read",
@@ -975,8 +992,8 @@ def run(ctx):
                         "no nested uv_run from inside a callback; no API call on a handle after its close_cb",
                         "stat status is 0 or a negative errno"]
     ctx.trusted += ["tools/gen_lean.py (clang AST -> Lean for the loop-free kernels statbuf_eq, fs_poll_rearm, fs_poll_timer_cb, "
-                    "inotify_events, fs_event_start_mask) and UvModel/CSem.lean"]
-    # Tie A: the kernels above regenerated from /repo, GenEq/C17 re-proves them = FsPoll.statbufEq / finishPoll / timerFire, FsEvent.eventsOf / WATCH_MASK
+                    "inotify_events, fs_event_start_mask, compare_watchers) and UvModel/CSem.lean"]
+    # Tie A: the kernels above regenerated from /repo, GenEq/C17 re-proves them = FsPoll.statbufEq / finishPoll / timerFire, FsEvent.eventsOf / WATCH_MASK / cmpWd (+ order laws)
     gen_ok = ctx.gen_lean(need=["C17"])
     ok = ctx.require_lean(["UvModel.GenEq.C17", "UvModel.Props.C17"]) and gen_ok
     exe = ctx.harness("c17_sim", ["harness/c17_sim.c"], link_lib=True, extra=WRAP)
@@ -984,7 +1001,9 @@ def run(ctx):
         return
     if ctx.replay:
         rp = json.loads(Path(ctx.replay).read_text())["replay"]
-        if rp["mode"] == "poll":
+        if rp["mode"] == "gencmp":
+            gencmp_watchers(ctx)
+        elif rp["mode"] == "poll":
             run_cases(ctx, exe, [rp["ops"]], "replay", check_poll_case, poll_features, "poll", "FsPoll model vs src/fs-poll.c")
         elif rp["mode"] == "event":
             run_cases(ctx, exe, [rp["ops"]], "replay", check_event_case, event_features, "event",
@@ -1049,6 +1068,8 @@ def run(ctx):
         done += len(cases)
     ctx.notes["real_kernel"] = (f"{done} programs on a scratch directory, {ncbs} callbacks checked by the monitor, "
                                 f"{SELF_OWED[0]} owed reports for changes of the watched path itself (chmod/rename/unlink/move-out)")
+    if not ok and not ctx.violations:
+        gencmp_watchers(ctx)      # Tie A: evaluate the generated tree comparator on a grid
     if ctx.broken and not ctx.violations:
         ctx.log("obligation broken; searching for a failing input with the monitors")
         srng = SplitMix(ctx.seed + 1717)
